@@ -55,6 +55,18 @@ impl Universe {
             ],
         }
     }
+    /// Two keys, value sizes {0, 1, usize::MAX / 2}, limits around the giant
+    /// entry and usize::MAX: arithmetic near the top of the usize range (the
+    /// sum of what is HELD always stays representable; intermediate sums in a
+    /// careless implementation do not).
+    pub fn giant() -> Universe {
+        let mut u = Universe::with_richness(2, false, false);
+        let g = usize::MAX / 2;
+        u.vheaps = vec![0, 1, g];
+        u.limits = vec![0, u.e, u.e + g, 2 * u.e + g + 1, usize::MAX - 1, usize::MAX];
+        u
+    }
+
     pub fn key_heap(&self, id: u32) -> usize {
         (id % 2) as usize
     }
@@ -125,6 +137,8 @@ impl Op {
             let v = u.vheaps[*h as usize];
             if v == HUGE {
                 "HUGE".to_string()
+            } else if v == usize::MAX / 2 {
+                "usize::MAX/2".to_string()
             } else {
                 v.to_string()
             }
